@@ -12,8 +12,12 @@ def main() -> int:
     ap.add_argument('prop', nargs='?')
     ap.add_argument('--tier', default=os.environ.get('VERIF_TIER', 'quick'), choices=['quick', 'thorough'])
     ap.add_argument('--replay')
+    ap.add_argument('--selftest', action='store_true')
     a = ap.parse_args()
     try:
+        if a.selftest:
+            from lv import selftest
+            return selftest.main()
         if a.replay:
             from lv import replay
             return replay.main(a.replay)
